@@ -11,14 +11,17 @@ use serde_json::json;
 use std::collections::HashSet;
 use std::sync::Mutex;
 
-/// Lines of a source text: split at '\n', one trailing '\r' removed; a final empty piece (text ending in a
-/// line terminator) is not a line.
+/// Lines of a source text: a line ends at '\n'; the terminator is "\n" or "\r\n" and is not part of the
+/// line. A final piece that is not followed by '\n' is a line of its own and is kept verbatim (a lone
+/// trailing '\r' there is content, not a terminator); a final empty piece is not a line.
 pub fn source_lines(text: &str) -> Vec<&str> {
     let mut v: Vec<&str> = text.split('\n').collect();
-    if v.last() == Some(&"") {
-        v.pop();
+    let last = v.pop().unwrap_or("");
+    let mut v: Vec<&str> = v.into_iter().map(|l| l.strip_suffix('\r').unwrap_or(l)).collect();
+    if !last.is_empty() {
+        v.push(last);
     }
-    v.into_iter().map(|l| l.strip_suffix('\r').unwrap_or(l)).collect()
+    v
 }
 
 #[derive(Debug)]
@@ -152,7 +155,7 @@ pub fn run(rep: &Report) -> i32 {
     let fresh = |t: &str| seen.lock().unwrap().insert(crate::report::fxhash(t.as_bytes()));
     let fresh = &fresh;
     let layouts = [Layout::Pretty, Layout::PrettyCrlf, Layout::Tabs, Layout::LineComments, Layout::TokenPerLine, Layout::TokenPerLineCrlf, Layout::OneLine, Layout::Comments, Layout::NonAsciiComments, Layout::CrOnly];
-    rep.set("bounds", json!({"layouts": layouts.iter().map(|l| format!("{l:?}")).collect::<Vec<_>>(), "variants": ["as rendered", "without the trailing line terminator", "with a leading non-ASCII comment line"], "sources": ["all M_ast near misses of the C04 bases", "single-token edits of the kitchen-sink programs and the shipped examples, LF and CRLF"]}));
+    rep.set("bounds", json!({"layouts": layouts.iter().map(|l| format!("{l:?}")).collect::<Vec<_>>(), "variants": ["as rendered", "without the trailing line terminator", "with a leading non-ASCII comment line", "with a lone carriage return appended"], "sources": ["all M_ast near misses of the C04 bases", "single-token edits of the kitchen-sink programs and the shipped examples, LF and CRLF"]}));
     // (1) near misses in every line structure
     let bases = c04::base_programs(quick);
     par_for(&bases, rep, 1, |bi, (name, base)| {
@@ -170,7 +173,7 @@ pub fn run(rep: &Report) -> i32 {
                     continue;
                 }
                 let text = m.render_with(RenderOpts::default(), *l);
-                let variants = [text.clone(), text.trim_end_matches(['\n', '\r']).to_string(), format!("// é嗨 comment before the error ü\n{text}")];
+                let variants = [text.clone(), text.trim_end_matches(['\n', '\r']).to_string(), format!("// é嗨 comment before the error ü\n{text}"), format!("{text}\r")];
                 for (vi, t) in variants.iter().enumerate() {
                     if vi > 0 && (mi + vi) % 3 != 0 {
                         continue;
